@@ -260,6 +260,9 @@ struct C01 : Property {
           r1::Msg m;
           std::string why;
           if (dg.size() >= 4 && (dg[2] << 8 | dg[3]) != (model.mid & 0xffff)) continue;   // not this message
+          // libcoap's one-off probe for Extended Token Length support (RFC 8974, sent because max_token_size is raised) can carry
+          // the very mid the plan chose for this message (1 in 65536): it is recognised by its extended TKL, which no UDP model has
+          if (dg.size() >= 1 && (dg[0] & 0x0f) >= 13 && model.token.size() <= 8) continue;
           if (r1::decode_udp(dg, m, &why) == r1::REJECT && why.find("outside") == std::string::npos) {
             res.violate("R1.datagram_malformed", "malformed", strfmt("message #%zu serialised to a malformed datagram (%s): %s", idx, why.c_str(), hex(dg).substr(0, 200).c_str()));
             continue;
